@@ -66,6 +66,16 @@ use self::trs::*;
 //@sig
     ensures r == VehicleIdx::Dummy(idx),
 //@end
+// verified here, text as in slices/remove_segment.vs.  `//@item?`: on a tree without this function (the unfixed code casts
+// `vehicle_counter as Idx`) the item is skipped
+//@item? solution/src/schedule/modifications.rs Schedule::next_free_idx
+//@retname r
+//@fmt-nonempty
+//@sig
+    ensures
+        vehicle_counter <= 0xffff ==> r == Ok::<Idx, String>(vehicle_counter as u16),
+        vehicle_counter > 0xffff ==> r is Err, // @obl C13.next_free_idx.refuses_when_all_indices_are_used
+//@end
 //@item solution/src/schedule.rs Schedule::new
 //@retname r
 //@sig
@@ -282,39 +292,75 @@ use self::trs::*;
         r is Ok ==> self.or_compatible(segment, provider, receiver), // @obl C01.override_reassign.refuses_incompatible_segment
         // C12: Ok only if Tour::remove accepts the segment ("Provider tour must be valid after removing the segment")
         r is Ok ==> self.or_removes(segment, provider), // @obl C13.override_reassign.provider_loses_receiver_gains_displaced_go_to_new_dummy
+        // D11: ids are handed out once: when a new dummy tour is needed and all 2^16 ids are used the modification is refused
+        self.or_removes(segment, provider) && self.or_creates_dummy(segment, provider, receiver) && self.vehicle_counter > 0xffff ==> r is Err, // @obl C13.override_reassign.refuses_instead_of_reusing_an_id
         // (1) C13: "the provider loses exactly the moved nodes, the receiver gains them (override) …, displaced … service trips
         // are handed back (… in a new dummy tour), a vehicle left without activities disappears, … all other vehicles' tours …
         // stay untouched"
-        r is Ok ==> self.or_provider_after(segment, provider, receiver, &r->Ok_0.0), // @obl C13.override_reassign.provider_loses_receiver_gains_displaced_go_to_new_dummy
-        r is Ok ==> self.or_receiver_after(segment, provider, receiver, &r->Ok_0.0), // @obl C13.override_reassign.provider_loses_receiver_gains_displaced_go_to_new_dummy
-        r is Ok ==> self.or_maps_after(segment, provider, receiver, &r->Ok_0.0), // @obl C13.override_reassign.provider_loses_receiver_gains_displaced_go_to_new_dummy
-        r is Ok ==> self.or_dummy_after(segment, provider, receiver, &r->Ok_0.0, r->Ok_0.1), // @obl C13.override_reassign.provider_loses_receiver_gains_displaced_go_to_new_dummy
-        r is Ok ==> self.or_lists_after(segment, provider, receiver, &r->Ok_0.0), // @obl C13.override_reassign.provider_loses_receiver_gains_displaced_go_to_new_dummy
+        r is Ok ==> self.or_provider_after(segment, provider, receiver, r->Ok_0.0.vehicles@, r->Ok_0.0.tours@, r->Ok_0.0.dummy_tours@), // @obl C13.override_reassign.provider_loses_receiver_gains_displaced_go_to_new_dummy
+        r is Ok ==> self.or_receiver_after(segment, provider, receiver, r->Ok_0.0.tours@, r->Ok_0.0.dummy_tours@), // @obl C13.override_reassign.provider_loses_receiver_gains_displaced_go_to_new_dummy
+        r is Ok ==> self.or_maps_after(segment, provider, receiver, r->Ok_0.0.tours@, r->Ok_0.0.dummy_tours@), // @obl C13.override_reassign.provider_loses_receiver_gains_displaced_go_to_new_dummy
+        r is Ok ==> self.or_dummy_after(segment, provider, receiver, r->Ok_0.0.dummy_tours@, r->Ok_0.0.vehicle_counter, r->Ok_0.1), // @obl C13.override_reassign.provider_loses_receiver_gains_displaced_go_to_new_dummy
+        r is Ok ==> self.or_lists_after(segment, provider, receiver, r->Ok_0.0.tours@, r->Ok_0.0.dummy_tours@,
+            r->Ok_0.0.vehicle_ids_grouped_and_sorted@, r->Ok_0.0.dummy_ids_sorted@), // @obl C13.override_reassign.provider_loses_receiver_gains_displaced_go_to_new_dummy
+        r is Ok ==> r->Ok_0.0.network == self.network, // @obl C13.override_reassign.provider_loses_receiver_gains_displaced_go_to_new_dummy
         // (2) C10 / C03 / C13: formations
         r is Ok ==> self.or_formations_elsewhere(segment, provider, receiver, r->Ok_0.0.train_formations@), // @obl C13.override_reassign.formations_elsewhere_untouched
         r is Ok ==> self.or_formations_moved(segment, provider, receiver, r->Ok_0.0.train_formations@), // @obl C10.override_reassign.moved_nodes_provider_replaced_by_receiver
         r is Ok ==> self.or_formations_displaced(segment, provider, receiver, r->Ok_0.0.train_formations@), // @obl C10.override_reassign.receiver_leaves_formations_of_displaced_nodes
         // (3) C09: "cached aggregates equal recomputation"
-        r is Ok ==> r->Ok_0.0.costs == self.costs
-            - self.cost_out_provider(self.tours@, Some(provider)) - self.cost_out_receiver(self.tours@, receiver)
-            + self.cost_in_provider(Some(provider), r->Ok_0.0.tour_opt(provider)) + self.cost_in_receiver(receiver, r->Ok_0.0.sp_tour_of(receiver)), // @obl C09.override_reassign.costs_delta_exact
+        r is Ok ==> self.or_costs_after(provider, receiver, r->Ok_0.0.tours@, r->Ok_0.0.dummy_tours@, r->Ok_0.0.costs), // @obl C09.override_reassign.costs_delta_exact
         r is Ok ==> usage_exact(r->Ok_0.0.depot_usage@, &self.network, r->Ok_0.0.vehicles@, r->Ok_0.0.tours@), // @obl C09.override_reassign.depot_usage_exact
         r is Ok ==> self.or_unserved_after(segment, provider, receiver, r->Ok_0.0.unserved_passengers), // @obl C09.override_reassign.unserved_passengers_delta_exact
-        r is Ok ==> self.or_transitions_after(provider, receiver, &r->Ok_0.0), // @obl C09.override_reassign.maintenance_violation_exact
+        r is Ok ==> self.or_transitions_after(provider, receiver, r->Ok_0.0.next_period_transitions@, r->Ok_0.0.maintenance_violation,
+            r->Ok_0.0.vehicles@, r->Ok_0.0.tours@), // @obl C09.override_reassign.maintenance_violation_exact
 //@first
+        // the big predicates stay folded in this body: the lemmas of env/override_reassign_shim.vs unfold them
+        hide(Schedule::or_pre);
+        hide(Schedule::ut_pre);
+        hide(Schedule::tfu_pre);
+        hide(Schedule::upd_pre);
+        hide(Schedule::or_new_tours);
+        hide(Schedule::or_compatible);
+        hide(Schedule::or_provider_after);
+        hide(Schedule::or_receiver_after);
+        hide(Schedule::or_maps_after);
+        hide(Schedule::or_dummy_after);
+        hide(Schedule::or_lists_after);
+        hide(Schedule::or_costs_after);
+        hide(Schedule::or_formations_elsewhere);
+        hide(Schedule::or_formations_moved);
+        hide(Schedule::or_formations_displaced);
+        hide(Schedule::or_unserved_after);
+        hide(Schedule::lists_follow);
+        hide(Schedule::vehicles_after);
+        hide(Schedule::tours_after);
+        hide(Schedule::dummies_after);
+        hide(listings_ok);
+        hide(usage_exact);
+        hide(usage_exact_for);
+        hide(usage_same_except_two);
         let ghost mut ndt: Option<Tour> = None;
         proof { lemma_or_setup(self, segment, provider, receiver); }
 //@before "let moved_nodes"
         proof {
             // Tour::remove accepted the segment
+            assert(self.or_removes(segment, provider));
+            assert(path.node_sequence@ == self.or_moved(segment, provider));
             lemma_or_guard(self, segment, provider, receiver);
             lemma_or_path(self, segment, provider, receiver);
+        }
+//@before "let (new_tour_receiver"
+        proof {
+            assert(*tour_receiver == self.sp_tour_of(receiver));
+            assert(eff_path(tour_receiver, path.node_sequence@) == self.or_ins(segment, provider, receiver));
         }
 //@before "self.update_tours("
         let ghost stp = shrinked_tour_provider;
         let ghost ntr = new_tour_receiver;
         proof {
             lemma_or_inserted(self, segment, provider, receiver, ntr, replaced_path);
+            assert(self.or_new_tours(segment, provider, receiver, stp, ntr)) by { reveal(Schedule::or_new_tours); }
             lemma_or_ut_pre(self, segment, provider, receiver, stp, ntr);
             lemma_seq_ext_all(self.or_moved(segment, provider));
         }
@@ -335,9 +381,12 @@ use self::trs::*;
         }
 //@before "Ok(("
         proof {
+            lemma_or_tours_post(self, segment, provider, receiver, stp, ntr, ndt, new_dummy_opt, vehicles@, tours@, dummy_tours@, vehicle_counter, costs);
+            lemma_or_lists_post(self, segment, provider, receiver, stp, tours@, dummy_tours@, vehicle_ids_grouped_and_sorted@, ids1, dummy_ids_sorted@);
+            lemma_or_formations_post(self, segment, provider, receiver, tf1, u1, train_formations@);
+            lemma_or_unserved_post(self, segment, provider, receiver, tf1, u1, unserved_passengers);
             lemma_usage_exact_after(self, self.depot_usage@, depot_usage@, self.vehicles@, self.tours@, Some(provider), stp, receiver, ntr); // @obl C09.override_reassign.depot_usage_exact
         }
-        let ghost res_network = self.network;
 //@end
 
 } // mod tr
